@@ -63,8 +63,36 @@ VH_EXPORT int vp_h20b_objcut(const unsigned char* in, unsigned char* out) {
 	if (n >= 7) return rc == vh::OK && ra && rb && a == (in[0] & 0x7f) && b == (in[1] & 0x7f);
 	return rc == RC_PARSING;                                // any strict prefix of the map: a catchable parsing error
 }
+// ---- h20e: nested array scopes on a truncated document [[a, b], c]: the inner scope is left with an unread element (a target of
+// fixed size 1), then destroyed, then the outer scope continues.  Every cut point: a catchable documented outcome, never
+// std::terminate from a scope destructor, nothing leaked.
+VH_EXPORT int vp_h20e_arrcut(const unsigned char* in, unsigned char* out) {
+	unsigned char doc[5] = { 0x92, 0x92, (unsigned char)(in[0] & 0x7f), (unsigned char)(in[1] & 0x7f), (unsigned char)(in[2] & 0x7f) };
+	size_t n = in[3] % 6;
+	SerializationOptions opt = options(0);
+	CMsgPackStringReader r(std::string_view(reinterpret_cast<const char*>(doc), n), opt);
+	SerializationContext ctx(opt);
+	int a = -1, c = -1; bool ra = false, rc_ = false;
+	verif_symbolic_phase();
+	int rc = outcome([&] {
+		size_t sz = 0; if (!r.ReadArraySize(sz)) return false;
+		ArrScope outer(sz, &r, ctx);
+		{
+			auto inner = outer.OpenArrayScope(0);
+			if (!inner) return false;
+			ra = inner->SerializeValue(a);
+		}
+		rc_ = outer.SerializeValue(c);
+		return true;
+	});
+	out[0] = (unsigned char)rc; out[1] = ra; out[2] = rc_; out[3] = (unsigned char)a; out[4] = (unsigned char)c;
+	if (n < 3) return rc == RC_PARSING;
+	if (a != (in[0] & 0x7f)) return 0;
+	return rc == vh::OK || rc == RC_PARSING;
+}
 #define D(name, T) VH_EXPORT int vp_h20a_##name(const unsigned char* in, unsigned char* out) { return prop_cut<T>(in, out); }
 D(u16, uint16_t) D(u64, uint64_t) D(i32, int32_t) D(i64, int64_t) D(f32, float) D(f64, double)
+//@ OBL {"name": "h20e_arrcut", "prop": "vp_h20e_arrcut", "in": 8, "out": 8, "unwind": 8, "fs": 32, "cbmc": ["--memory-leak-check"], "unwind_fn": {"SkipValueImpl": 1}, "recursion": {"SkipValueImpl": 0}, "cap_s": 900, "bounds": "document [[a,b],c] with symbolic one-byte elements, every cut point 0..5", "desc": "nested array scope destroyed with an unread element on a truncated document: ParsingException or success, no terminate from the scope destructor, no leak"}
 //@ OBL {"name": "h20a_u16", "family": "h20a", "prop": "vp_h20a_u16", "in": 16, "out": 8, "unwind": 12, "fs": 32, "cbmc": ["--memory-leak-check"], "unwind_fn": {"SkipValueImpl": 1}, "recursion": {"SkipValueImpl": 0}, "bounds": "every uint16 value, every strict prefix of its encoding, both policies", "desc": "truncated encoding -> ParsingException; no terminate, no leak"}
 //@ OBL {"name": "h20a_u64", "family": "h20a", "prop": "vp_h20a_u64", "in": 16, "out": 8, "unwind": 12, "fs": 32, "cbmc": ["--memory-leak-check"], "unwind_fn": {"SkipValueImpl": 1}, "recursion": {"SkipValueImpl": 0}, "bounds": "every uint64 value, every strict prefix", "desc": "truncated encoding -> ParsingException"}
 //@ OBL {"name": "h20a_i32", "family": "h20a", "prop": "vp_h20a_i32", "in": 16, "out": 8, "unwind": 12, "fs": 32, "cbmc": ["--memory-leak-check"], "unwind_fn": {"SkipValueImpl": 1}, "recursion": {"SkipValueImpl": 0}, "bounds": "every int32 value, every strict prefix", "desc": "truncated encoding -> ParsingException"}
@@ -78,3 +106,6 @@ D(u16, uint16_t) D(u64, uint64_t) D(i32, int32_t) D(i64, int64_t) D(f32, float) 
 //@ VEC * ffffffffffffffff0300
 //@ VEC * 0506040000000000
 //@ VEC * 0506080000000000
+//@ VEC h20e_arrcut 0102030500000000
+//@ VEC h20e_arrcut 0102030300000000
+//@ VEC h20e_arrcut 0102030200000000
